@@ -145,7 +145,7 @@ def run_all(text):
     return outcomes
 
 
-def judge(text, must_fail, label):
+def judge(text, must_fail, label, per_generator=False):
     outcomes = run_all(text)
     problems = []
     for entry, (status, written, dirs) in outcomes.items():
@@ -154,6 +154,12 @@ def judge(text, must_fail, label):
         if must_fail and status == "ok":
             problems.append("%s accepted an input that is not a complete sequence of declarations" % entry)
     kinds = {o[0] == "ok" for o in outcomes.values()}
+    if per_generator:
+        # a generator may validate what the other does not: only the API and the script of ONE generator have to agree
+        kinds = {True}
+        for gen in ("pybind", "matlab"):
+            if len({o[0] == "ok" for k, o in outcomes.items() if k.startswith(gen)}) > 1:
+                kinds = {True, False}
     if len(kinds) != 1:
         # pybind and MATLAB validate differently only for defaults-before-non-defaults; everything here must agree
         problems.append("entry points disagree: %r" % {k: v[0] for k, v in outcomes.items()})
@@ -194,6 +200,35 @@ def c07_validation(i: int) -> bool:
     with concrete():
         ok = judge(INVALID_TEXTS[i][1], True, INVALID_TEXTS[i][0])
     reached({"rule": INVALID_TEXTS[i][0]})
+    return ok
+
+
+EDGE_TEXTS = [
+    ("function overloaded across two blocks of a re-opened namespace, a class before it", "namespace ns { class A { A(); }; void f(int a); }\nnamespace ns { void f(double a); }"),
+    ("class named like a template instantiation", "namespace ns { class A { A(); }; template<T = {double}> class Box { Box(); }; class BoxDouble { BoxDouble(); }; }"),
+    ("class declared twice at top level", "namespace ns { class A { A(); }; }\nclass Dup { Dup(); };\nclass Dup { Dup(int a); };"),
+    ("enum, class and overloads in re-opened namespaces", "namespace a { enum E { X }; class C { C(); }; }\nnamespace b { void g(); void g(int x); }\nnamespace b { void g(double y); }"),
+    ("function named like a class of its namespace", "namespace ns { class A { A(); }; class f { f(); }; void f(int a); }"),
+    ("namespace named like a class with an enum", "namespace ns { class A { A(); enum K { k1 }; }; namespace A { class Inner { Inner(); }; } }"),
+    ("two typedefs of one instantiation", "namespace ns { class Z { Z(); }; template<T> class Box { Box(); }; typedef ns::Box<double> B1; typedef ns::Box<double> B2; }"),
+    ("only forward declarations and includes", "#include <a/b.h>\nclass Fwd;\nnamespace ns { class A { A(); }; virtual class G; }"),
+    ("empty namespaces around a class", "namespace e1 { }\nnamespace ns { class A { A(); }; namespace e2 { } }\nnamespace e1 { }"),
+]
+
+
+def c07_edge_inputs(i: int) -> bool:
+    """
+    Valid inputs of the kind a generator-side validation is most likely to be written against (two declarations aiming at
+    one output file, duplicates, look-alike names, hollow namespaces), each with a namespaced class in front: whatever a
+    generator decides about them — today they are all accepted — the API and the script of one generator agree, and a
+    run that fails leaves no file and no directory behind.
+    pre: 0 <= i < len(EDGE_TEXTS)
+    post: _
+    """
+    i = pick(i, 0, len(EDGE_TEXTS))
+    with concrete():
+        ok = judge(EDGE_TEXTS[i][1], False, EDGE_TEXTS[i][0], per_generator=True)
+    reached({"input": EDGE_TEXTS[i][0]})
     return ok
 
 
@@ -339,5 +374,6 @@ def conds(tier):
         xh.Cond(M, "c07_multifile", t(200, 600), kind="shape-bounded", examples=["cut1=2, cut2=4, rot=0", "cut1=1, cut2=1, rot=3", "cut1=0, cut2=3, rot=5", "cut1=2, cut2=2, rot=1", "cut1=3, cut2=6, rot=0"],
                 bounds="6 top-level declarations in 6 rotations, split into 1-3 files at every pair of cut points"),
         xh.Cond(M, "c07_matlab_default_order", t(120, 300), kind="shape-bounded", examples=["i=0", "i=4", "i=6"], bounds="%d kinds of callable x 2 MATLAB entry points" % len(DEFAULT_ORDER_TEXTS)),
+        xh.Cond(M, "c07_edge_inputs", t(120, 300), kind="shape-bounded", examples=["i=0", "i=2", "i=5"], bounds="%d accepted edge inputs x 6 entry points" % len(EDGE_TEXTS)),
         xh.Cond(M, "c07_validation", t(120, 300), kind="shape-bounded", examples=["i=0", "i=4"], bounds="%d rule violations x 6 entry points" % NI),
     ]
